@@ -19,7 +19,7 @@ const ENTRIES = [
   { src: 'trim', operator: true, dst: 'trimAsOperator' },
   { src: 'tplOperator', dst: 'tplAsMethod' }
 ]
-const STMTS = 'let x = a + b; x += a; let t = `${a}${b}`; let m1 = a.trim(); let m2 = a.concat(b); let m3 = a.substring(1); let m4 = aloneMethod(a); let m5 = cantAloneMethod(a); let m6 = a.plusOperator(b); let m7 = s?.trim(); let m8 = String.prototype.concat.call(a, b); let m9 = a.slice(1); let m10 = o.aloneMethod(a); let m11 = String.prototype.substring.apply(a, [1, 2]); let m12 = a.at(1); let m13 = a.con(b); let m14 = a.trimEnd(); let m15 = a.Trim(); let m16 = a.tplOperator(b);'
+const STMTS = 'let x = a + b; x += a; let t = `${a}${b}`; let m1 = a.trim(); let m2 = a.concat(b); let m3 = a.substring(1); let m4 = aloneMethod(a); let m5 = cantAloneMethod(a); let m6 = a.plusOperator(b); let m7 = s?.trim(); let m8 = String.prototype.concat.call(a, b); let m9 = a.slice(1); let m10 = o.aloneMethod(a); let m11 = String.prototype.substring.apply(a, [1, 2]); let m12 = a.at(1); let m13 = a.con(b); let m14 = a.trimEnd(); let m15 = a.Trim(); let m16 = a.tplOperator(b); let m17 = o?.q.call(a, b); let m18 = g?.apply(a, [b]); let m19 = s?.at(1); let m20 = s?.trim.call(a); let m21 = o?.p.concat(b); let m22 = o?.q?.(a).slice(1); let m23 = o.q?.call(a, b);'
 const SIDE_BY_SIDE = `function main(a, b, s, o) {\n  ${STMTS}\n  {\n    ${STMTS}\n  }\n  const k = () => { ${STMTS} };\n}\nvar top = g1 + g2 + \`\${g1}\` + g1.trim();\n`
 const VARIANTS = [
   { name: 'dup-src', add: [{ src: 'trim', dst: 'trimSecond' }] },
@@ -155,6 +155,8 @@ function checkLattice (leaf, r, res, v) {
       for (const n of used) if (!defined.has(n)) v('prologue-misses-name', 'prologue', `hook ${n} is used but the prologue does not define a pass-through for it`)
       for (const n of configured) if (/^[A-Za-z_$][\w$]*$/.test(n) && !defined.has(n)) v('prologue-misses-configured-name', 'prologue', `configured name ${n} has no pass-through in the prologue`)
     } else v('modified-without-prologue', 'prologue', 'modified file without prologue')
+    // an optional chain is only lowered to its guard form in order to instrument something inside it
+    for (const g of a.erasure.guardRecs || []) if (!g.hooked) v('unlisted-operation-altered', 'guard-without-hook', `the optional chain ${g.text.slice(0, 80)} was lowered to a null-guard on ${g.temp} although nothing inside it is instrumented`)
     if (a.mismatches.length) { res.notes = { erasure_mismatch: 1 }; return }
   }
   const dupSrc = new Set()
